@@ -47,7 +47,7 @@ def soStr (so : SellOrder) (alias : Bool) : String :=
     | some b => if alias then s!"{b.bidder}/{b.price}/{b.dst}" else s!"{b.bidder}/{b.price}"
   s!"{so.expireAt},{so.minPrice},{so.sellPrice},{bid}"
 
-def boIdStr (bo : BuyOrder) (id : Nat) : String := (if bo.isAlias then "20" else "10") ++ toString id
+def boIdStr (bo : BuyOrder) (id : Nat) : String := orderPrefix bo.isAlias ++ toString id
 
 def idxStr (tag : String) (n : Nat) (f : Nat → List Nat) (render : List Nat → String) : String :=
   String.join ((List.range n).map (fun i =>
@@ -116,7 +116,7 @@ def handleStr : Handle → String
   | .alias l => s!"l{l}"
 
 /-- order id text "10<n>" / "20<n>" -/
-def parseOrderId (t : String) : Bool × Nat := (t.startsWith "20", nat! (dropS t 2))
+def parseOrderId (t : String) : Bool × Nat := (t.startsWith (orderPrefix true), nat! (dropS t 2))
 
 def parseCont (t : String) : Option (Bool × Nat) := if t = "-" then none else some (parseOrderId t)
 
